@@ -56,7 +56,7 @@ def run(tier, seed):
     # for ever and the GVT passes it), plus its end-state and commit oracles
     from checks import hrun_common as hc
     from lib import models
-    hb = hc.build(os.path.join(d, "hrun"))
+    hb = hc.build(os.path.join(d, "hrun"), race=True, name="h_run_race")  # also interleaves at plain accesses to shared statics
     hsc = [hc.scen("rt_m0_T2", models.text(2, [1, 2], [2, 1, 7], P=0, K=5, H=6), T=2, ck=2, p=1, j=4, deadline=600),
            hc.scen("rt_m1_T3", models.text(3, [7, 0, 1], [7, 2, 1], P=0, K=5, H=6), T=3, ck=1, p=1, j=4, deadline=600),
            hc.scen("rt_init4_T3", models.text(4, [2, 2, 2, 2], [1, 2, 2], P=5, K=4, H=4), T=3, ck=0, gp=1, p=1, j=4, deadline=600)]
@@ -100,5 +100,5 @@ def replay(path):
     d = vc.fresh_dir(PID + "_replay")
     if os.path.basename(path).startswith("rt_"):
         from checks import hrun_common as hc
-        return vc.rsched_replay(hc.build(d), path)
+        return vc.rsched_replay(hc.build(d, race=True), path)
     return vc.rsched_replay(build(d), path)
